@@ -26,7 +26,9 @@ type limitsRec struct {
 	Fam    string              `json:"fam"`
 	Ver    string              `json:"ver"`
 	Path   string              `json:"path"`
+	Hash   string              `json:"hash"`
 	Size   int                 `json:"size"`
+	SizeOf string              `json:"sizeof"`
 	Fields map[string]shapeRec `json:"fields"`
 	Want   string              `json:"want"`
 	VClass string              `json:"vclass"`
@@ -82,6 +84,90 @@ func classify(err error) string {
 		return "refused"
 	}
 	return "othererror"
+}
+
+// input is one JSON document handed to NewEventFromUntrustedJSON.
+type input struct {
+	via  string
+	json []byte
+}
+
+// survivingLen is the size of what survives redaction (canonical JSON of the version's redaction).
+func survivingLen(v gmsl.IRoomVersion, eventJSON []byte) int {
+	red, err := v.RedactEventJSON(eventJSON)
+	if err != nil {
+		fatalf("redaction of a generated event failed: %v", err)
+	}
+	c, err := gmsl.CanonicalJSON(red)
+	if err != nil {
+		fatalf("canonical JSON of a redacted event: %v", err)
+	}
+	return len(c)
+}
+
+func fakeID(n, length int) string {
+	s := fmt.Sprintf("$%04d", n)
+	return s + strings.Repeat("A", length-len(s))
+}
+
+// mismatchInputs makes received JSON whose content hash does not match.
+//   - mismatch: the content was altered after hashing; redaction strips the alteration, so the receiver
+//     re-parses the redacted form;
+//   - mismatch_same: empty content, no origin key, a wrong hash value: redaction leaves the JSON as it is.
+//
+// Size scenarios grow the event through auth_events (kept by redaction) until the JSON named by
+// r.SizeOf (received / surviving / both) has exactly r.Size bytes.
+func mismatchInputs(r limitsRec, v gmsl.IRoomVersion, f evFields, built gmsl.PDU) []input {
+	spoil := func(signed []byte) []byte {
+		if r.Hash == "mismatch" {
+			return withKey(signed, "content", map[string]string{"body": "altered after hashing"})
+		}
+		return withKey(signed, "hashes", map[string]string{"sha256": "AAAAAAAAAAAAAAAAAAAAAAAAAAAAAAAAAAAAAAAAAAA"})
+	}
+	make1 := func(auth []string) []byte {
+		g := f
+		g.Auth = auth
+		g.Content = json.RawMessage(`{}`)
+		g.NoOrigin = r.Hash == "mismatch_same"
+		return spoil(handSigned(r.Ver, v, g))
+	}
+	measure := func(in []byte) int {
+		if r.SizeOf == "surviving" {
+			return survivingLen(v, in)
+		}
+		return len(in)
+	}
+	if r.Size == 0 {
+		out := []input{{"hand-signed JSON, hash " + r.Hash, make1(nil)}}
+		if built != nil && r.Hash == "mismatch" {
+			out = append(out, input{"JSON made by EventBuilder.Build, content altered afterwards", spoil(built.JSON())})
+		}
+		return out
+	}
+	// one short ID, then as many 44-character IDs as fit, then the first ID lengthened by the remainder
+	first := 10
+	auth := []string{fakeID(0, first)}
+	base := measure(make1(auth))
+	per := measure(make1(append(append([]string{}, auth...), fakeID(1, 44)))) - base
+	rest := r.Size - base
+	if rest < 0 || per <= 0 {
+		fatalf("size scenario: cannot reach %d bytes (base %d, per entry %d)", r.Size, base, per)
+	}
+	for i := 1; i <= rest/per; i++ {
+		auth = append(auth, fakeID(i, 44))
+	}
+	auth[0] = fakeID(0, first+rest%per)
+	in := make1(auth)
+	if measure(in) != r.Size {
+		fatalf("concretiser: %s JSON has %d bytes, wanted %d", r.SizeOf, measure(in), r.Size)
+	}
+	if r.Hash == "mismatch_same" && survivingLen(v, in) != len(in) {
+		fatalf("concretiser: mismatch_same event of version %s changes under redaction", r.Ver)
+	}
+	if r.Hash == "mismatch" && survivingLen(v, in) >= len(in) {
+		fatalf("concretiser: mismatch event of version %s does not shrink under redaction", r.Ver)
+	}
+	return []input{{fmt.Sprintf("hand-signed JSON, hash %s, %d auth_events", r.Hash, len(auth)), in}}
 }
 
 // relevantClass names the version class only where it can matter: the room ID of versions with domainless
@@ -166,23 +252,25 @@ func limitsReplay(raw json.RawMessage) hx.Result {
 			return fail(got, berr, "EventBuilder.Build")
 		}
 	case "receipt":
-		inputs := []struct {
-			via  string
-			json []byte
-		}{{"hand-signed JSON", hand}}
-		if built != nil {
-			inputs = append(inputs, struct {
-				via  string
-				json []byte
-			}{"JSON made by EventBuilder.Build", built.JSON()})
+		var inputs []input
+		switch r.Hash {
+		case "match":
+			inputs = append(inputs, input{"hand-signed JSON", hand})
+			if built != nil {
+				inputs = append(inputs, input{"JSON made by EventBuilder.Build", built.JSON()})
+			}
+		case "mismatch", "mismatch_same":
+			inputs = mismatchInputs(r, v, f, built)
+		default:
+			fatalf("unknown hash %q", r.Hash)
 		}
 		for _, in := range inputs {
 			ev, err := v.NewEventFromUntrustedJSON(in.json)
 			if got := classify(err); got != r.Want {
 				return fail(got, err, "NewEventFromUntrustedJSON of "+in.via)
 			}
-			if ev != nil && ev.Redacted() {
-				fatalf("concretiser: %s of version %s has a wrong content hash (the library redacted it)", in.via, r.Ver)
+			if ev != nil && ev.Redacted() != (r.Hash != "match") {
+				fatalf("concretiser: %s of version %s, hash=%s: the library says redacted=%v", in.via, r.Ver, r.Hash, ev.Redacted())
 			}
 		}
 	case "checkfields":
